@@ -139,8 +139,9 @@ initial state whose ghost log of finished requests is empty. -/
 theorem finv {g0 g : G} (h0 : Init g0) (hd0 : g0.done = []) (hr : Reachable g0 g) : FInv g.view :=
   hr.closed FInv.closed ⟨SInv.init h0.1 h0.2.1 h0.2.2.1 h0.2.2.2.2, DInv.init hd0⟩
 
-/-- Every request that returned consumed exactly one revision and reported it: nothing it dealt is
-left unresolved (in particular the revision-drift rejections). (`hd0`: the ghost log of finished
+/-- Every request that returned with a revision (`done`; a request whose `Deal` was refused because the sequencer's ring
+was full holds none and is logged in `refused`: `KB.C04Window`) consumed exactly one revision and reported it: nothing
+it dealt is left unresolved (in particular the revision-drift rejections). (`hd0`: the ghost log of finished
 requests starts empty — `Init` alone does not say so.) -/
 theorem done_resolved {g0 g : G} (h0 : Init g0) (hd0 : g0.done = []) (hr : Reachable g0 g)
     (d : Done) (hd : d ∈ g.done) :
